@@ -42,6 +42,25 @@ PASS = {"core::result::Result::ok": {"Ok": "Some", "Err": "None"},
         "core::option::Option::as_mut": None}
 
 
+def _names_of(prog, adt):
+    """{discriminant string: variant name} of a std sum type or of an enum of the program (an outcome type a maintainer
+    introduced: `enum ChainLink { Holds(Value), Broken }`)"""
+    if adt in UNDISCR:
+        return UNDISCR[adt]
+    a = getattr(prog, "adts", {}).get(adt) if adt else None
+    if a and a.get("kind") == "enum" and 2 <= len(a["variants"]) <= 8:
+        return {str(v["discr"]): v["name"] for v in a["variants"]}
+    return None
+
+
+def _discrs(prog, adt, names):
+    m = _names_of(prog, adt)
+    if m is None:
+        return frozenset(STD_DISCR[x] for x in names if x in STD_DISCR)
+    inv = {v: k for k, v in m.items()}
+    return frozenset(inv[x] for x in names if x in inv)
+
+
 class _Stack(list):
     """work list that drops successors reached over a removed edge (the current block is set by the walker)"""
 
@@ -62,6 +81,7 @@ class Result:
         self.budget_hit = False
         self.ran = set()         # closures whose bodies were walked as part of a combinator call
         self.visited = set()     # blocks reached on some feasible path
+        self.visited_states = set()   # (block, client state) pairs reached
 
 
 def _freeze(env):
@@ -98,6 +118,7 @@ def explore(prog, fn, state0, on_call, on_return=None, max_states=60000, _depth=
             continue
         seen.add(key)
         res.visited.add(bb)
+        res.visited_states.add((bb, st))
         n += 1
         if n > max_states:
             res.budget_hit = True
@@ -116,7 +137,7 @@ def explore(prog, fn, state0, on_call, on_return=None, max_states=60000, _depth=
             val = None
             k = rv["k"]
             env.pop("alias:%d" % l, None)
-            if k == "agg" and rv.get("agg") == "adt" and rv.get("adt") in UNDISCR:
+            if k == "agg" and rv.get("agg") == "adt" and _names_of(prog, rv.get("adt")) is not None:
                 val = ("V", frozenset([rv["variant"]]))
             elif k == "use":
                 val = _val(env, rv["op"])
@@ -133,7 +154,7 @@ def explore(prog, fn, state0, on_call, on_return=None, max_states=60000, _depth=
                 if p.get("p", []) in ([], ["*"]):
                     v = env.get(p["l"])
                     if v is not None and v[0] == "V":
-                        val = ("D", frozenset(STD_DISCR[x] for x in v[1] if x in STD_DISCR))
+                        val = ("D", _discrs(prog, rv.get("adt"), v[1]))
             if val is not None:
                 env[l] = val
             else:
@@ -208,8 +229,8 @@ def explore(prog, fn, state0, on_call, on_return=None, max_states=60000, _depth=
             full = None
             if d is not None and "p" not in d:
                 adt_ = fn.locals[d["l"]].get("adt")
-                if adt_ in UNDISCR:
-                    full = ("V", frozenset(UNDISCR[adt_].values()))
+                if _names_of(prog, adt_) is not None:
+                    full = ("V", frozenset(_names_of(prog, adt_).values()))
             for alt in alts:
                 st2, v = alt[0], alt[1]
                 e2 = dict(env)
@@ -260,8 +281,8 @@ def explore(prog, fn, state0, on_call, on_return=None, max_states=60000, _depth=
                     for d_ in flow.whole_defs(fn, p["l"]):
                         if d_.kind == "stmt" and d_.rv["k"] == "discr" and d_.rv["place"].get("p", []) in ([], ["*"]):
                             src = (d_.rv["place"]["l"], d_.rv.get("adt"))
-                if src is not None and src[1] in UNDISCR:
-                    names = UNDISCR[src[1]]
+                if src is not None and _names_of(prog, src[1]) is not None:
+                    names = _names_of(prog, src[1])
                     listed = {x: y for x, y in t["arms"]}
                     known = env.get(src[0])
                     # a value that comes from outside (a parameter, a captured variable) keeps its variant along a path:
